@@ -30,7 +30,7 @@ LEVEL_TEXT = ("Termination cycle, Doist.done and every doer's done flag are judg
 LEVEL_NOTE = "trusted: vf/sched.py recorder, vf/models/cycle.py; Python 3.12 generator.close() returns None (forced closes never carry a value)"
 ASSUMPTIONS = ["static doer sets; non-real-time mode; limit > 0 or None"]
 NSHARDS = {"quick": 8, "thorough": 16}
-REQUIRE = {"runs_judged": 2500, "limit_fired_with_alive": 300, "no_limit_runs": 500, "self_completed_flags_checked": 3000,
+REQUIRE = {"runs_with_runtime_extend_flags_judged": 300, "stale_true_reset_seen_for_extended_doer": 300, "runs_judged": 2000, "limit_fired_with_alive": 300, "no_limit_runs": 500, "self_completed_flags_checked": 3000,
            "forced_closed_flags_checked": 800, "stale_true_reset_seen": 3000, "limit_not_multiple_of_tock": 100}
 
 
@@ -42,6 +42,25 @@ def cases(tier, seed, shard, nshards):
         prog = gen_sched.gen_prog(rng, dyadic=dyadic, nmax=7, depth=2, group_p=rng.choice([0.0, 0.3]),
                                   limit_p=0.5, leaf_kw={"forever_p": 0.2})
         prog["stale_done"] = True
+        if rng.random() < 0.2:
+            # doers with a stale True flag that are entered at RUNTIME through extend() (Doist or nested DoDoer):
+            # only the flag clauses D3/D4 are judged for these runs (the termination model has no extend)
+            callers = [lf for lf in gen_sched.leaves_of(prog["doers"]) if lf.get("enter") == "ok"]
+            if callers:
+                ids = gen_sched.Ids()
+                ids.n = 600
+                caller = rng.choice(callers)
+                news = [gen_sched.gen_leaf(rng, ids, prog["tock"], dyadic=dyadic, forever_p=0.4)
+                        for _ in range(rng.randint(1, 3))]
+                scheds = ["doist"] + [g["id"] for g in gen_sched.groups_of(prog["doers"])
+                                      if any(c is caller or (c.get("doers") and caller in list(gen_sched.leaves_of([c])))
+                                             for c in g["doers"])]
+                last = caller["end"][0] if caller.get("end") else 4
+                caller.setdefault("acts", {})[str(rng.randint(1, last))] = \
+                    [["extend", rng.choice(scheds), [n_["id"] for n_ in news], False]]
+                prog["pool"] = news
+                if prog["limit"] is None and gen_sched.needs_limit(prog["doers"] + news):
+                    prog["limit"] = prog["tock"] * 10 if dyadic else 2.05
         yield {"prog": prog}
 
 
@@ -53,9 +72,61 @@ def preset_stale(run):
             obj.__func__.done = True
 
 
+def run_flags_only(case, ctx):
+    """Runs whose doer set changes at runtime: judge D3 (False inside enter, also for doers entered by extend()) and
+    D4 (flag == returned value after self-completion; never truthy after a forced close)."""
+    prog = case["prog"]
+    orig_build = sched.build
+
+    def build_with_stale(p):
+        r = orig_build(p)
+        preset_stale(r)
+        return r
+    sched.build = build_with_stale
+    try:
+        run = sched.execute(prog, max_cycles=sched.cycle_budget(prog))
+    finally:
+        sched.build = orig_build
+    tr = sched.compact(run)
+    if run.result[0] != "return":
+        ctx.violation("run-did-not-return:" + str(run.result[1]), f"{run.result}", trace=tr)
+        return
+    terminal = {}
+    for kind, did, t, info in run.trace:
+        if kind in ("clean", "cease", "abort"):
+            terminal[did] = kind
+    pool_ids = {n["id"] for n in prog["pool"]}
+    for did, st in run.state.items():
+        if st.enters == 0:
+            continue
+        where = "extended-at-runtime" if did in pool_ids else "initial"
+        if st.flag_at_enter is not False:
+            ctx.violation("done-not-false-at-enter:" + where, f"{did} ({run.specs[did]['kind']}) read done="
+                          f"{st.flag_at_enter!r} inside its enter", trace=tr)
+            return
+        if did in pool_ids:
+            ctx.count("stale_true_reset_seen_for_extended_doer")
+        flag = run.done_of(did)
+        if terminal.get(did) == "clean":
+            v = st.value
+            ok = (flag is None or flag is False) if v is None else (flag == v and type(flag) is type(v))
+            if not ok:
+                ctx.violation("done-flag-not-returned-value", f"{did} ({run.specs[did]['kind']}, {where}) returned {v!r}, "
+                              f"done flag is {flag!r}", trace=tr)
+                return
+        elif flag:
+            ctx.violation("done-truthy-after-forced-close", f"{did} ({run.specs[did]['kind']}, {where}) ended by "
+                          f"{terminal.get(did)} but done={flag!r}", trace=tr)
+            return
+    ctx.count("runs_with_runtime_extend_flags_judged")
+
+
 def run_case(case, ctx):
     prog = case["prog"]
     dyadic = prog.get("dyadic", True)
+    dynamic = bool(prog.get("pool"))
+    if dynamic:
+        return run_flags_only(case, ctx)
     try:
         model = cycle.Model(prog, "own", dyadic).run()   # literal asap reading: completion cycle of nested runs
         model2 = cycle.Model(prog, "next", dyadic).run()
